@@ -100,6 +100,7 @@ pub mod mm {
 pub mod fallback {
     /// Returns the absolute value of `x`.
     #[inline]
+    #[cfg_attr(kani, kani::ensures(|r: &f32| super::verif_kani::is_abs_of(*r, x)))]
     pub fn abs(x: f32) -> f32 {
         f32::from_bits(x.to_bits() & !0x8000_0000)
     }
